@@ -119,7 +119,8 @@ def run(ctx):
             n = rng.choice([16, 32, 64, 128, 256, 512]) + rng.choice([0, 1])
             fs = rng.choice([0.5, 1.0, 2.0, 4.0, 8.0])
             ctx.tally("aligned FFT bins")
-        seed = rng.randrange(0, 2 ** 32)
+        # the ends of the seed range are seeds like any other (0 is falsy in Python: a classic slip)
+        seed = rng.choice([0, 0, 1, 2 ** 32 - 1]) if rng.random() < 0.2 else rng.randrange(0, 2 ** 32)
         seed2 = rng.randrange(0, 2 ** 32)
         while seed2 == seed:
             seed2 = rng.randrange(0, 2 ** 32)
